@@ -162,10 +162,7 @@ def dump_stats(ctx, dump):
         elif t in ("multi", "sortedmulti", "multi_a", "sortedmulti_a"):
             k, n = int(toks[i + 1]), int(toks[i + 2])
             ks = toks[i + 3:i + 3 + n]
-            if t.endswith("_a"):
-                num_cost = 2 + (k > 16) + (n > 16)
-                surplus += num_cost - script_num_size(k) - 1
-            else:
+            if not t.endswith("_a"):     # pk_cost of multi_a is right since /repo c854851b
                 unc_all += sum(is_unc(x) for x in ks)   # pk_cost of multi is right since /repo 5d25865d
             i += 3 + n
         else:
